@@ -86,3 +86,17 @@ Example C10_cache_run :
   exists s, creach nat nat Nat.eq_dec (fun p => p + 1) (cinit nat nat (fun i => if Nat.eqb i 0 then [7] else [])) s /\
             c_log nat nat s = [(0, 7, 8)] /\ c_owner nat nat s = None /\ c_reads nat nat s = 1 /\ c_hits nat nat s = 0.
 Proof. exact cache_run_example. Qed.
+
+(* ---- inventory of mutable state (DESIGN.md 2.3).  The models above are functions of their arguments; they are
+   faithful only as long as the code keeps no state between calls beyond what they mention.  The package-level
+   variables and struct fields in the scope of C10 (and which of them are written outside construction, from which
+   entry points) are regenerated from the current source on every run (harness/stategen -> Generated/StateInv.v)
+   and contain no state beyond the expected, reviewed inventory of Sys/StateInvSpec.v, where every piece of state
+   that legitimately exists names the model component that accounts for it.  Breaks when a written package-level
+   variable, a struct field, or a write of a field outside its constructor is added in scope (coqc then prints the
+   differences); tolerates moved declarations, reordered fields, renamed locals, new helpers / constants / tables
+   nothing writes. *)
+From Sdfx Require Sys.StateInvSpec Sys.StateInvC10.
+Theorem C10_state_inventory : Sdfx.Sys.StateInvSpec.state_ok_C10 = true.
+Proof. exact Sdfx.Sys.StateInvC10.C10_state_inventory. Qed.
+Print Assumptions C10_state_inventory.
